@@ -24,6 +24,48 @@ FETCH = D + 'digesters::cardano_immutable_digester::CardanoImmutableDigester::fe
 UPD = D + 'digesters::cardano_immutable_digester::CardanoImmutableDigester::update_cache'
 
 
+POSITIONAL = ['*::Iterator::zip', '*::Iterator::unzip', '*::Iterator::nth', '*itertools*::zip*', '*itertools*::multiunzip', '*itertools*::izip*']
+
+
+def _base_fields(body, operand, depth=5):
+    """(local, field) pairs an operand is a (reference chain to a) field of."""
+    out = set()
+    if operand[0] not in ('copy', 'move') or depth == 0:
+        return out
+    l, proj = operand[1]
+    for pe in proj:
+        if isinstance(pe, tuple) and pe[0] == 'f':
+            out.add((l, pe[2]))
+    for (bi, si, pl, rv) in body.defs(l):
+        if si == 't' or pl[1]:
+            continue
+        if rv[0] in ('ref', 'cfd', 'ptr'):
+            for pe in rv[1][1]:
+                if isinstance(pe, tuple) and pe[0] == 'f':
+                    out.add((rv[1][0], pe[2]))
+            out |= _base_fields(body, ('copy', (rv[1][0], ())), depth - 1)
+        elif rv[0] == 'use':
+            out |= _base_fields(body, rv[1], depth - 1)
+    return out
+
+
+def _reads_field(body, operand, field, depth=6):
+    """operand is (a clone / copy / reference of) a `.field` of something"""
+    if depth == 0 or operand[0] not in ('copy', 'move'):
+        return False
+    if any(f == field for (_, f) in _base_fields(body, operand)):
+        return True
+    for (bi, si, pl, rv) in body.defs(operand[1][0]):
+        if si == 't' and not isinstance(rv, tuple):
+            if any(n.endswith('::clone') or n.endswith('::to_owned') or n.endswith('::to_string') or n.endswith('::deref') for n in rv.names()) and rv.args:
+                if _reads_field(body, rv.args[0], field, depth - 1):
+                    return True
+        elif si != 't' and rv[0] == 'use':
+            if _reads_field(body, rv[1], field, depth - 1):
+                return True
+    return False
+
+
 def has(og, pat):
     return any(glob_match(pat, o) for o in og)
 
@@ -113,6 +155,52 @@ def run(ctx):
                        {'eq', 'gt'}, key='list:beacon-exists')
         ctx.arg_origin('b', lf_, IMF + '::list_all_in_dir', 0, require=['p#1'], desc='(dir) <- dirpath')
 
+
+    # the listing looks at the direct children of the immutable directory only
+    la2 = ctx.try_fn('b', IMF + '::list_all_in_dir')
+    if la2 is not None:
+        inst = 'list_all_in_dir: only direct children of the immutable directory become immutable files (walker depth bounded to 1)'
+        news = [c for c in la2.body.calls() if any(glob_match(IMF + '::new', n) for n in c.names())]
+        feeders = set()
+        for c in news:
+            for o in fn_origins(la2, c.args[0], 'adapters'):
+                if o.startswith('call:'):
+                    feeders.add(o[5:])
+        work = [la2] + [f for n in feeders for f in ws.find_all(n) if f.unit.crate == la2.unit.crate]
+        walkers, bounded, readdir = [], [], []
+        for f in work:
+            for g in f.family():
+                body = g.body
+                for c in body.calls():
+                    if any(glob_match('walkdir::WalkDir::new', n) for n in c.names()):
+                        if f is la2 and not any(has(fn_origins(la2, n2.args[0], 'adapters'), 'call:walkdir::WalkDir::new') for n2 in news):
+                            continue
+                        walkers.append((g, c))
+                    if any(glob_match('walkdir::WalkDir::max_depth', n) for n in c.names()) and body.const_of(c.args[1]) == 1:
+                        bounded.append((g, c))
+                    if any(glob_match('std::fs::read_dir', n) or glob_match('tokio::fs::read_dir', n) for n in c.names()):
+                        readdir.append((g, c))
+        # a walker whose result only becomes the ROOT of another walker is the directory finder, not the lister
+        root_feeders = set()
+        for g, c in walkers:
+            og = fn_origins(g, c.args[0], 'adapters')
+            root_feeders |= {o[5:] for o in og if o.startswith('call:')}
+            params = sorted({int(o[2:].split('.')[0]) for o in og if o.startswith('p#') and o[2:].split('.')[0].isdigit()})
+            rf = g.root()
+            for site in la2.body.calls():
+                if rf.name in site.names():
+                    for k in params:
+                        if 0 < k <= len(site.args):
+                            root_feeders |= {o[5:] for o in fn_origins(la2, site.args[k - 1], 'adapters') if o.startswith('call:')}
+        walkers = [(g, c) for g, c in walkers if g.root().name not in root_feeders]
+        unb = [c for g, c in walkers if not any(g2 is g and has(fn_origins(g2, c2.args[0], True), 'call:walkdir::WalkDir::new') for g2, c2 in bounded)]
+        if not news or (not walkers and not readdir):
+            R.missing('b', 'list_all_in_dir: no directory walker (walkdir / read_dir) found feeding ImmutableFile::new')
+        elif unb:
+            R.violation('b', 'R13', inst, 'list_all:depth', 'WalkDir::new at line %s is not bounded by max_depth(1): files in sub-directories of immutable/ named like '
+                        'immutable files would be digested' % [c.line for c in unb], la2.loc())
+        else:
+            R.ok('b', 'R13', inst, '%d walker(s), %d read_dir' % (len(walkers), len(readdir)), la2.loc())
     # ---- (c)
     cf = ctx.try_fn('c', CID)
     if cf is not None:
@@ -145,6 +233,70 @@ def run(ctx):
                         'value origin ok: %s; hashed entry is the inserted key: %s' % (ok, same), cf.loc())
         # every entry gets a digest: the insert is passed on every iteration
         ctx.r1('c', CID, Sink('compute_raw_hash (io error propagates)', IMF + '::compute_raw_hash', 'ok', per_item=True)) if False else None
+
+    # cache write-back: every (file name, digest) pair stored is built from ONE entry of `entries`
+    uf0 = ctx.try_fn('c', UPD)
+    if uf0 is not None:
+        inst = 'update_cache: each stored (file name, digest) pair comes from one entry of entries (no positional re-pairing)'
+        pairs = []
+        rep = []
+        stores = []
+        closure_form = False
+        for g in uf0.logic().family():
+            for c in g.body.calls():
+                if any(glob_match(pt, n) for n in c.names() for pt in POSITIONAL):
+                    rep.append('%s:%d' % (fn_short(c.best()), c.line))
+                if any(glob_match('*::ImmutableFileDigestCacheProvider::store', n) for n in c.names()):
+                    stores.append((g, c))
+            for b in g.body.blocks:
+                if b.cleanup:
+                    continue
+                for (_, pl, rv) in b.stmts:
+                    if rv[0] == 'agg' and rv[1] == 'tuple' and len(rv[5]) == 2 and g.body.lty(pl[0]).startswith('(std::string::String, std::string::String)'):
+                        o1 = fn_origins(g, rv[5][0], 'adapters')
+                        o2 = fn_origins(g, rv[5][1], 'adapters')
+                        e1 = {o.split('.')[0] for o in o1 if o.startswith('clarg#') or o.startswith('call:') and o.endswith('::next')}
+                        e2 = {o.split('.')[0] for o in o2 if o.startswith('clarg#') or o.startswith('call:') and o.endswith('::next')}
+                        from_entries = has(o1, 'pty:ComputedImmutablesDigests.entries') and has(o2, 'pty:ComputedImmutablesDigests.entries')
+                        in_closure = any(o.startswith('clarg#') for o in e1 & e2)
+                        pairs.append(bool(e1 & e2) and (from_entries or in_closure) and _reads_field(g.body, rv[5][0], 'filename'))
+                        closure_form = closure_form or (in_closure and not from_entries)
+        # closure form: the iterator the pair-building closure is mapped over derives from `entries`
+        src_ok = bool(pairs) and all(pairs) and (not closure_form or any(
+            has(fn_origins(g, c.args[1], True), 'pty:ComputedImmutablesDigests.entries') for g, c in stores))
+        if stores and pairs and all(pairs) and not rep and src_ok:
+            R.ok('c', 'R5', inst, '%d pair builder(s)' % len(pairs), uf0.loc())
+        else:
+            R.violation('c', 'R5', inst, 'update_cache:pairing',
+                        'store sites %d, per-entry pair builders %s, pairs built from entries: %s, positional adapters %s: a name stored with '
+                        'another file\'s digest poisons every later computation over the same files' % (len(stores), pairs, src_ok, rep[:4]), uf0.loc())
+    # cache read: the value returned for a file is looked up under that file's own name
+    gets_impl = [f for f in ws.find_all('<* as ' + D + 'digesters::cache::provider::ImmutableFileDigestCacheProvider>::get') if f.unit.tag == 'lib']
+    if not gets_impl:
+        R.missing('c', 'no implementation of ImmutableFileDigestCacheProvider::get found')
+    for gi in gets_impl:
+        lg = gi.logic()
+        body = lg.body
+        from props.c10 import _root_locals
+        ins = [c for c in body.calls() if any(glob_match('std::collections::btree::map::BTreeMap::insert', n) for n in c.names())]
+        okp = bool(ins)
+        for c in ins:
+            kroots = _root_locals(body, c.args[1])
+            vo = fn_origins(lg, c.args[2], True)
+            good = False
+            for lk in body.calls():
+                if lk is c or not any(('call:' + n) in vo for n in lk.names()):
+                    continue
+                for a in lk.args:
+                    if any(l in kroots and fld == 'filename' for (l, fld) in _base_fields(body, a)):
+                        good = True
+            if not good:
+                okp = False
+        inst = '%s: the digest returned for a file is the cache entry stored under that file\'s own name' % fn_short(gi.name)
+        if okp:
+            R.ok('c', 'R5', inst, '', gi.loc())
+        else:
+            R.violation('c', 'R5', inst, 'cache_get:%s' % fn_short(gi.name).split(' ')[0], 'inserted key and looked-up file name are not the same loop item', gi.loc())
     rh = ctx.try_fn('c', IMF + '::compute_raw_hash')
     if rh is not None:
         op = [c for c in rh.body.calls() if any(glob_match('std::fs::File::open', n) or glob_match('std::fs::*::open', n) for n in c.names())]
